@@ -845,6 +845,17 @@ func resolveAlg(alg SignatureAlgorithm) (crypto.Hash, hash.Hash, asn1.ObjectIden
 	return hashAlgId, hashAlg, sigAlgOid, wantKey, err
 }
 
+// Parameters of the AlgorithmIdentifier for the given signature algorithm:
+// the RSA PKCS#1 v1.5 algorithms require an explicit NULL (RFC 4055), the
+// ECDSA algorithms require them to be absent (RFC 5758).
+func sigAlgParameters(alg SignatureAlgorithm) asn1.RawValue {
+	_, _, _, wantKey, err := resolveAlg(alg)
+	if err == nil && wantKey == rsaKey {
+		return asn1.NullRawValue
+	}
+	return asn1.RawValue{}
+}
+
 // Sign the provided information to finally yield a certificate.
 // This is also the point, where the extensions will be generated
 // through the provided Builder interfaces.
@@ -863,7 +874,8 @@ func (c *CertificateContext) Sign(alg SignatureAlgorithm) (*Certificate, error) 
 
 	if out.TBSCertificate.SignatureAlgorithm.Algorithm == nil {
 		out.TBSCertificate.SignatureAlgorithm = pkix.AlgorithmIdentifier{
-			Algorithm: sigAlgOids[alg],
+			Algorithm:  sigAlgOids[alg],
+			Parameters: sigAlgParameters(alg),
 		}
 	}
 	out.TBSCertificate.Issuer = c.Issuer.IssuerDn
@@ -894,6 +906,8 @@ func (c *CertificateContext) Sign(alg SignatureAlgorithm) (*Certificate, error) 
 	if err != nil {
 		return nil, err
 	}
+
+	out.SignatureAlgorithm.Parameters = sigAlgParameters(alg)
 
 	hashAlg.Write(b)
 	digest = hashAlg.Sum(nil)
